@@ -28,7 +28,7 @@ EXTRA_TREES = [
     {"a": "x", "b": "y", "s/a": "z", "s/é": "w", "s/t/a": "v"},
 ]
 LINKS = ["copy", "hardlink", "symlink", "default"]
-PATHS = ["object", "index", "lazy"]
+PATHS = ["object", "index", "lazy", "index-prefix", "index-update"]
 
 
 def trees(tier):
@@ -144,6 +144,36 @@ def one_exec(tree, kind, path, link, with_state, single=None, pre=False):
 
                     idx = DataIndex()
                     iadd(idx, src, LFS, ())
+                elif path == "index-prefix":
+                    # the tracked tree is the sub-directory `ws` of a larger root; its data storage is registered
+                    # for the key ("ws",) with an explicit, different prefix (paths resolve from the root)
+                    from dvc_data.index import FileStorage
+
+                    write_tree(w.p(), {"a": b"a decoy next to the tracked directory", "b": b"another"})
+                    idx0 = ibuild(w.p(), LFS, ignore=None)
+                    idx = DataIndex()
+                    for k, e in idx0.iteritems():
+                        if k[:1] == ("ws",):
+                            idx[k] = e
+                    idx.storage_map.add_data(FileStorage(("ws",), LFS, w.p(), prefix=()))
+                elif path == "index-update":
+                    # an earlier index of the same workspace; a file is then rewritten in place (same length,
+                    # same inode, 1 microsecond later) and the new index takes over hashes by metadata
+                    from dvc_data.index import update as iupdate
+
+                    old = imd5(ibuild(src, LFS), state=state)
+                    first = sorted(files)[0]
+                    if files[first]:
+                        files[first] = bytes((b + 1) % 256 for b in files[first])
+                        pth = os.path.join(src, *first.split("/"))
+                        ns0 = os.stat(pth).st_mtime_ns
+                        with open(pth, "r+b") as fh:
+                            fh.write(files[first])
+                        os.utime(pth, ns=(ns0 + 1000, ns0 + 1000))
+                        want = dict(files)
+                        want_listing = {rel: ref.md5(b) for rel, b in files.items()}
+                    idx = ibuild(src, LFS)
+                    iupdate(idx, old)
                 else:
                     idx = ibuild(src, LFS)
                 idx = imd5(idx, state=state)
@@ -156,6 +186,10 @@ def one_exec(tree, kind, path, link, with_state, single=None, pre=False):
                     viol.append(("index-apply-reported-errors", repr(errors)[:300]))
                 if single is None:
                     for k, e in idx.iteritems():
+                        if path == "index-prefix":
+                            if k == ("ws",):
+                                continue
+                            k = k[1:]
                         if e.meta and e.meta.isdir and e.hash_info:
                             pre = "/".join(k) + "/"
                             sub = {rel[len(pre):]: h for rel, h in want_listing.items() if rel.startswith(pre)}
@@ -175,10 +209,14 @@ def one_exec(tree, kind, path, link, with_state, single=None, pre=False):
                     apply(compare(None, idx2), out2, LFS, storage="cache", state=state)
                 else:
                     apply(compare(None, idx), out2, LFS, storage="cache", state=state)
+                if path == "index-prefix":
+                    out2 = os.path.join(out2, "ws")
                 if walk_files(out2) != want:
                     viol.append((f"second-round-trip-differs/{path}", f"{sorted(walk_files(out2))} vs {sorted(want)}"))
             except Exception as e:  # noqa: BLE001
                 viol.append((f"second-round-trip-raises-{type(e).__name__}/{path}", repr(e)))
+            if path == "index-prefix":
+                out = os.path.join(out, "ws")
             got = walk_files(out)
             if got != want:
                 lost = sorted(set(want) - set(got))
@@ -194,7 +232,7 @@ def one_exec(tree, kind, path, link, with_state, single=None, pre=False):
                 srcd = walk_dirs(src)
                 if not (wantd <= dirs <= srcd):
                     viol.append((f"round-trip-directories-differ/{path}", f"{sorted(dirs)} vs {sorted(wantd)}"))
-                if path != "index" and dirs != wantd:
+                if not path.startswith("index") and dirs != wantd:
                     viol.append((f"object-checkout-created-untracked-directory/{path}", f"{sorted(dirs - wantd)}"))
         finally:
             if state is not None:
@@ -218,7 +256,7 @@ def run_case(case):
     tree, single = case.get("tree"), case.get("single")
     for kind in ("local", "base"):
         for path in PATHS:
-            if single is not None and path == "lazy":
+            if single is not None and path in ("lazy", "index-prefix", "index-update"):
                 continue
             for link in LINKS:
                 for ws, pre in ((False, False), (True, False), (False, True), (True, True)):
